@@ -91,9 +91,9 @@ def run(ctx):
                                "tlc_states": rA2.distinct})
     # graph paths as they are; simulated prefixes and random walks are completed by the synchronous-suffix
     # executor so that every run ends in decisions reached from an adversarial prefix
-    inp = {"mode": "replay", "powers": powers, "byz": byz, "maxround": 9, "scheds": scheds, "random": 0}
+    inp = {"mode": "replay", "dups": 5, "powers": powers, "byz": byz, "maxround": 9, "scheds": scheds, "random": 0}
     rows, stats = cc.run_driver(ctx, binp, inp, "A")
-    inp2 = {"mode": "replay", "powers": powers, "byz": byz, "maxround": 9, "scheds": sims, "synctail": True, "byzafter": True,
+    inp2 = {"mode": "replay", "dups": 5, "powers": powers, "byz": byz, "maxround": 9, "scheds": sims, "synctail": True, "byzafter": True,
             "random": 30 if quick else 1500, "randlen": 150}
     rows2, stats2 = cc.run_driver(ctx, binp, inp2, "A2")
     off = max([r["run"] for r in rows] + [0])
@@ -148,7 +148,7 @@ def run(ctx):
         attacks = [a for a in load_attacks() if a["powers"] == powers and a["byz"] == byz3] + cc.load_prefixes(powers, byz3)
         for k, a in enumerate(attacks):
             scheds.append({"id": 100000 + k, "steps": a["steps"]})
-        inp = {"mode": "replay", "powers": powers, "byz": byz3, "maxround": 9, "scheds": scheds, "synctail": True, "byzafter": True,
+        inp = {"mode": "replay", "dups": 5, "powers": powers, "byz": byz3, "maxround": 9, "scheds": scheds, "synctail": True, "byzafter": True,
                "random": 25 if quick else 1500, "randlen": 200}
         rows, stats = cc.run_driver(ctx, binp, inp, tag)
         v = cc.validate(ctx, rows, info3, byz3, 9, tag, dedupe=True)
